@@ -243,7 +243,7 @@ func c02SeqReplay(p *route.Parser, c c02Case) (bool, string) {
 // every ordered pair of paths on every tree of one or two routes, compared with a fresh tree.
 func c02Sequences(r *core.Run, p *route.Parser) {
 	// (%2561 decodes once to %61: a value that a second decoding would change)
-	paths := pathsOver([]string{"a", "n", "e", "%2561"}, 3, []string{"/a/a-a/n", "/a/a-/n", "/n/a/e/e", "/a/%2561-%2561/n", "/n/ae-a", "/n/ae-a/e", "/n/ne-n/e", "/n/ne-%2561"})
+	paths := pathsOver([]string{"a", "n", "e", "%2561"}, 3, []string{"/a/a-a/n", "/a/a-/n", "/n/a/e/e", "/a/%2561-%2561/n", "/n/ae-a", "/n/ae-n/e", "/n/ne-a/e", "/n/ne-%2561", "/n/ae-n"})
 	r.Bounds["sequence_routes"] = c02SeqRoutes
 	r.Bounds["sequence_paths"] = len(paths)
 	n := len(c02SeqRoutes)
